@@ -140,7 +140,11 @@ def task_yaml(t, root):
     elif k == 'copy':
         L += ["- copy:", "    content: " + q(m[1]), "    dest: " + q("%s/out/%s" % (root, m[1]))]
     elif k == 'include':
-        L += ["- include: " + q(m[1] if t.get("relative") else "%s/%s" % (root, m[1]))]
+        if t.get("via_dir") is not None:
+            # written relative to the INCLUDING file's own directory, through the builtin: works only if rash.dir is right
+            L += ["- include: " + q("{{ rash.dir }}/" + t["via_dir"])]
+        else:
+            L += ["- include: " + q(m[1] if t.get("relative") else "%s/%s" % (root, m[1]))]
     elif k == 'badparam':
         L += ["- debug:", "    nosuchparam: 1"]
     else:
@@ -152,7 +156,10 @@ def task_yaml(t, root):
         L.append("  when: " + t["when_raw"])
     elif t["when"] is not None:
         L.append("  when: " + q(expr_j(t["when"])))
-    if t["loop"] is not None:
+    if t.get("loop_raw") is not None:
+        # the loop given as ONE template (a variable holding a list, a range ...): the model gets the equivalent literal items
+        L.append("  loop: " + t["loop_raw"])
+    elif t["loop"] is not None:
         L.append("  loop:")
         L += ["    - " + q(tpl_j(i)) for i in t["loop"]]
     if t["register"] is not None:
